@@ -368,6 +368,8 @@ class Sweep:
             ctx.hist("target_strata", s.split(":")[0])
         ctx.hist("program_targets", prog.name, len(tgts))
         nrel = ctx.pick(1, 3)
+        # thorough: at most 8 (seeded) targets per stratum with options=None
+        full_sample = {s: [m[i] for i in sorted(rng.sample(range(len(m)), 8))] for s, m in strata.items() if len(m) > 8}
         for cls in self.classes:
             name = cls.__name__
             if only is not None and name not in only:
@@ -384,7 +386,7 @@ class Sweep:
                 for s, members in sorted(strata.items()):
                     key = (name, label, s)
                     if full:
-                        cand = members
+                        cand = members if (grid_full or len(members) <= 8) else full_sample[s]
                     elif self.use_hint and key not in self.rel and hint_key(key) not in self.hint \
                             and s not in extra_strata:
                         continue
